@@ -207,3 +207,61 @@ def sum_amounts(xs, k):
     if k == 0:
         return 0
     return sum_amounts(xs, k - 1) + xs[k - 1].amount
+
+
+# ------------------------------------------------------------------ parsing direction: what is LEFT of a list in a stream
+@recursive(returns="bytes")
+def concat_from(xs, k):
+    """xs[k] + xs[k+1] + ... (the elements are byte strings): recursion on the suffix, for invariants of parsing loops"""
+    if k == len(xs):
+        return b""
+    return xs[k] + concat_from(xs, k + 1)
+
+
+def cfcheckpt_msg_any(filter_type, stop_hash, filter_headers):
+    """BIP157 cfcheckpt for a list of any length"""
+    return le(filter_type, 1) + stop_hash[::-1] + compact_size(len(filter_headers)) + concat_from(filter_headers, 0)
+
+
+@recursive(returns="bytes:32")
+def hash_chain(prev, xs, k):
+    """BIP157 filter-header chain: header_i = hash256(filter_hash_i || header_{i-1}), header_0 = prev; value after k hashes"""
+    if k == 0:
+        return prev
+    return hash256(xs[k - 1] + hash_chain(prev, xs, k - 1))
+
+
+def cfheaders_msg_any(filter_type, stop_hash, previous_filter_header, filter_hashes):
+    """BIP157 cfheaders for a list of any length"""
+    return (le(filter_type, 1) + stop_hash[::-1] + previous_filter_header + compact_size(len(filter_hashes))
+            + concat_from(filter_hashes, 0))
+
+
+# ------------------------------------------------------------------ transaction parsing for every shape (C04)
+@recursive(returns="bytes")
+def concat_ser_from(xs, k):
+    """ser(xs[k]) + ser(xs[k+1]) + ... : what is left of the element list in the stream"""
+    if k == len(xs):
+        return b""
+    return xs[k].serialize() + concat_ser_from(xs, k + 1)
+
+
+@recursive(returns="bytes")
+def concat_wit_from(xs, k):
+    """witness(xs[k]) + witness(xs[k+1]) + ..."""
+    if k == len(xs):
+        return b""
+    return xs[k].witness.serialize() + concat_wit_from(xs, k + 1)
+
+
+def tx_legacy_from_outs(outs, locktime4):
+    return compact_size(len(outs)) + concat_ser_from(outs, 0) + locktime4
+
+
+def tx_legacy_any(version, ins, outs, locktime4):
+    return le(version, 4) + compact_size(len(ins)) + concat_ser_from(ins, 0) + tx_legacy_from_outs(outs, locktime4)
+
+
+def tx_segwit_any(version, ins, outs, locktime4):
+    return (le(version, 4) + b"\x00\x01" + compact_size(len(ins)) + concat_ser_from(ins, 0)
+            + compact_size(len(outs)) + concat_ser_from(outs, 0) + concat_wit_from(ins, 0) + locktime4)
